@@ -112,7 +112,8 @@ def _stage(draw, cur):
                 # a missing key next to an existing mapping
                 parents = [()] + [q for q in paths if isinstance(_get(cur, q), dict)]
                 par = parents[draw(st.integers(0, len(parents) - 1))]
-                p = par + ('zz%d' % len(ops),)
+                held = _get(cur, par) if par else cur
+                p = par + (next(f'zz{i}' for i in range(len(ops), len(ops) + 50) if f'zz{i}' not in held),)
             if any(_related(p, u) for u in used):
                 continue
             scalar = draw(st.integers(0, 4)) == 0
@@ -135,7 +136,10 @@ def _stage(draw, cur):
             else:
                 parents = [()] + [q for q in paths if isinstance(_get(cur, q), dict) and not through_list(cur, q)]
                 par = parents[draw(st.integers(0, len(parents) - 1))]
-                dst = par + ('q%d' % len(ops),)
+                # a key the destination mapping does not hold yet (earlier stages may have used the same names)
+                held = _get(cur, par) if par else cur
+                nm = next(f'q{i}' for i in range(len(ops), len(ops) + 50) if f'q{i}' not in held)
+                dst = par + (nm,)
             # removing an element renumbers its siblings: no other operator of the stage may address that list
             src_zone = src[:-1] if len(src) >= 1 and src != ('nope',) and isinstance(_get(cur, src[:-1]), list) else src
             if any(_related(src_zone, u) or _related(dst, u) for u in used) or _related(src_zone, dst):
